@@ -16,10 +16,21 @@ Sentence of the property                                               theorem
                                                                         the rounding clause itself is checked
                                                                         NUMERICALLY by the oracle (relative 1e-9),
                                                                         not proved.
+Second part (whole controller, `Model.PtpFilter`; histories = `Ctrl.run c ops`):
+  link selection (the crate's filter tests, for all inputs)            internal_untracked_link_always_active,
+                                                                        created_link_shape,
+                                                                        external_link_activation_needs_consensus,
+                                                                        unfit_external_link_never_becomes_active,
+                                                                        no_window_if_unfit, bookkeeping_keeps_external_data
+  steering over histories                                              steer_within_max_history, steer_log_sound_history,
+                                                                        estimate_tracks_steer_step / _tick / _history,
+                                                                        controller_invariant_history
 -/
 import NtpVerif.Proofs.EstimatorNum
 import NtpVerif.Proofs.F64
 import NtpVerif.Model.PtpCtrl
+import NtpVerif.Proofs.PtpFilterInv
+import NtpVerif.Proofs.PtpCtrlInv
 
 namespace NtpVerif.C43
 open NtpVerif.Estimator NtpVerif.PtpCtrl
@@ -169,6 +180,334 @@ example : steerOne false ⟨0x3f50624dd2f1a9fc⟩ ⟨0x3eb0c6f7a0b5ed8d⟩ F64.z
 example : ∀ a d : Int, Num.sub (Num.add a d) a = d := by
   intro a d; show a + d - a = d; omega
 
+/-! ### the whole controller (`Model.PtpFilter`): link selection and steering over every history
+
+`Ctrl.run c ops` is a controller history: clocks and links come and go, external data is updated, the
+clocks tick, measurements arrive (each one triggers `steer_clocks`).  Its second component lists
+everything that was done to the clocks. -/
+
+open NtpVerif.PtpFilter
+
+/-- **C43.internal_untracked_link_always_active** (the crate's test `untracked_internal_link_is_always_active`,
+    for every history): in every controller history every link without delay tracking and without an
+    external end is active — from its creation (`created_internal_untracked_link`) on, whatever is measured,
+    steered, added or removed meanwhile. -/
+theorem internal_untracked_link_always_active {now : Nat} {max w : F64} {cfg : Cfg} {c0 : Ctrl}
+    (h0 : Ctrl.new now max w cfg = .ok c0) (ops : List COp) :
+    ∀ l ∈ (c0.run ops).1.filter.links, l.tracked = none → l.ext = none → l.active = true :=
+  noSleeper_run ops c0 (noSleeper_new h0)
+
+/-- what `add_untracked_link` / `add_tracked_link` create: an untracked link between two internal clocks is
+    exactly a link with `tracked = none`, `ext = none`, and it starts active; every other link (tracked, or
+    with an external end) starts inactive. -/
+theorem created_link_shape {f f' : Filter} {a b uid : Nat} {decay : Option F64} {id : LinkId}
+    (h : f.addLinkF a b uid decay = .ok (f', id)) :
+    ∃ l, f'.links = f.links ++ [l] ∧ l.id = id ∧
+      (l.tracked = none ↔ decay = none) ∧
+      (l.ext = none ↔ (isInternal f.est a && isInternal f.est b) = true) ∧
+      (l.active = true ↔ (decay = none ∧ (isInternal f.est a && isInternal f.est b) = true)) := by
+  unfold Filter.addLinkF at h
+  simp only at h
+  split at h
+  · cases h
+  · split at h
+    · cases h
+    · split at h
+      · cases h
+      · split at h
+        · cases h
+        · simp only [Except.ok.injEq, Prod.mk.injEq] at h
+          obtain ⟨rfl, rfl⟩ := h
+          refine ⟨_, rfl, rfl, ?_, ?_, ?_⟩
+          · cases decay <;> simp
+          · by_cases hi : (isInternal f.est a && isInternal f.est b) = true <;> simp [hi]
+          · cases decay <;> simp
+
+/-- **C43.external_link_activation_needs_consensus** (tests `external_links_need_consensus`,
+    `external_links_activity_and_steering_works`): if a measurement turns an inactive link with an external
+    end active, then at that moment (`g`, `l` = the filter and the link after the measurement's bookkeeping)
+    the link has an offset window, a consensus window exists, the two overlap, and at least
+    `minimum_agreeing_sources` links have a window. -/
+theorem external_link_activation_needs_consensus {f f' : Filter} {cfg : Cfg} {lid : LinkId} {fwd : Bool}
+    {v u : F64} {i : Nat} {l : FLink} {g : Filter}
+    (hm : f.measurement cfg lid fwd v u = .ok f') (hn : f.note lid fwd v u = some (i, l, g))
+    (hext : l.ext.isSome) (hin : l.active = false) (hact : f'.linkActive lid = .ok true) :
+    ∃ w cw ws, offsetWindow l cfg g.est = .ok (some w) ∧ consensus g cfg = .ok (some cw) ∧
+      w.overlaps cw = true ∧ windows g cfg = .ok ws ∧ cfg.minAgree ≤ (ws.filterMap id).length := by
+  obtain ⟨i', l', g', hn', hcase⟩ := measurement_active hm
+  rw [hn] at hn'
+  simp only [Option.some.injEq, Prod.mk.injEq] at hn'
+  obtain ⟨rfl, rfl, rfl⟩ := hn'
+  rcases hcase with ⟨_, ha⟩ | ⟨delay, noise, verd, _, hv, ha⟩
+  · rw [ha, hin] at hact; cases hact
+  · rw [ha, hin] at hact
+    simp only [Except.ok.injEq] at hact
+    have := flag_true_of_inactive hact
+    subst this
+    obtain ⟨w, cw, h1, h2, h3⟩ := judge_use_external hext hv
+    obtain ⟨ws, h4, h5⟩ := consensus_quorum h2
+    exact ⟨w, cw, ws, h1, h2, h3, h4, h5⟩
+
+/-- **C43.unfit_external_link_never_becomes_active** (tests `internal_link_inactive_on_unusable_measurements`,
+    `too_uncertain_external_links_inactive`): an inactive link with an external end stays inactive through a
+    measurement whenever it has no offset window afterwards — in particular when the remote marked it
+    unusable, when no offset was recorded yet, when delay/noise estimates are missing, or when its half window
+    (noise, offset uncertainty, delay + root delay, each weighted by the configuration) is not below
+    `select_max_window_size` (`no_window_if_unfit`). -/
+theorem unfit_external_link_never_becomes_active {f f' : Filter} {cfg : Cfg} {id : LinkId} {fwd : Bool}
+    {v u : F64} {i : Nat} {l : FLink} {g : Filter}
+    (hm : f.measurement cfg id fwd v u = .ok f') (hn : f.note id fwd v u = some (i, l, g))
+    (hext : l.ext.isSome) (hin : l.active = false)
+    (hnow : ∀ w, offsetWindow l cfg g.est ≠ .ok (some w)) : f'.linkActive id = .ok false := by
+  obtain ⟨i', l', g', hn', hcase⟩ := measurement_active hm
+  rw [hn] at hn'
+  simp only [Option.some.injEq, Prod.mk.injEq] at hn'
+  obtain ⟨rfl, rfl, rfl⟩ := hn'
+  rcases hcase with ⟨_, ha⟩ | ⟨delay, noise, verd, _, hv, ha⟩
+  · rw [ha, hin]
+  · rw [ha, hin]
+    cases verd with
+    | wait => rfl
+    | drop => rfl
+    | use =>
+      obtain ⟨w, cw, h1, _⟩ := judge_use_external hext hv
+      exact absurd h1 (hnow w)
+
+/-- when a link has no window: any of the listed defects suffices -/
+theorem no_window_if_unfit (l : FLink) (cfg : Cfg) (est : E)
+    (h : l.ext = none ∨ (∃ e, l.ext = some e ∧ e.usable = false) ∨
+      (∃ e, l.ext = some e ∧ e.offsets.asRef.isEmpty = true) ∨ l.estimates = none ∨
+      (∃ e delay noise, l.ext = some e ∧ l.estimates = some (delay, noise) ∧
+        F64.lt (halfWindow cfg e delay noise) cfg.maxW = false)) :
+    ∀ w, offsetWindow l cfg est ≠ .ok (some w) := by
+  intro w hw
+  obtain ⟨e, delay, noise, he, hu, hne, hest, hlt⟩ := offsetWindow_some hw
+  rcases h with h | ⟨e', he', hu'⟩ | ⟨e', he', hne'⟩ | h | ⟨e', d', n', he', hest', hlt'⟩
+  · rw [h] at he; cases he
+  · rw [he'] at he; cases he; rw [hu] at hu'; cases hu'
+  · rw [he'] at he; cases he; rw [hne] at hne'; cases hne'
+  · rw [h] at hest; cases hest
+  · rw [he'] at he; cases he
+    rw [hest'] at hest; cases hest
+    rw [hlt] at hlt'; cases hlt'
+
+/-- the bookkeeping of a measurement does not change what the remote said about the link -/
+theorem bookkeeping_keeps_external_data {f : Filter} {id : LinkId} {fwd : Bool} {v u : F64} {i : Nat}
+    {l : FLink} {g : Filter} (hn : f.note id fwd v u = some (i, l, g)) :
+    ∃ l0, f.links.find? (fun x => x.id == id) = some l0 ∧ l.active = l0.active ∧
+      ∀ e0, l0.ext = some e0 → ∃ e, l.ext = some e ∧ e.usable = e0.usable ∧ e.rootDelay = e0.rootDelay ∧
+        e.leap = e0.leap := by
+  obtain ⟨l0, hl0, _, _, rfl⟩ := note_spec hn
+  obtain ⟨_, ha, _, _, he⟩ := noteLink_spec f.est l0 fwd v u
+  exact ⟨l0, hl0, ha, he⟩
+
+/-- **C43.steer_within_max_history** — in every controller history, every frequency the controller ever
+    set on a clock lies within `[−max, max]` for the maximum frequency that clock reported at that moment
+    (unless the wanted value was NaN, which `f64::clamp` passes through); `e.cur`, `e.max` are the clock's
+    `get_frequency()` / `max_frequency()` readings and `e.offset`, `e.unc`, `e.freq` the filter's estimate,
+    as recorded by `steer_clocks` for that call. -/
+theorem steer_within_max_history (c : Ctrl) (ops : List COp) :
+    ∀ e ∈ (c.run ops).2, ∀ actual change, e.action = .setFreq actual change →
+      (wanted e.offset e.freq e.cur).isNaN = false →
+      F64.le (F64.neg e.max) actual = true ∧ F64.le actual e.max = true := by
+  intro e he actual change ha hw
+  have hs := (run_log ops c e he).1
+  rw [ha] at hs
+  exact steer_within_max _ _ _ _ _ _ _ _ hs.symm hw
+
+/-- every recorded action is the steering kernel applied to the recorded readings, and what the estimator
+    absorbed is what was applied (`steer_absorbs_applied`) -/
+theorem steer_log_sound_history (c : Ctrl) (ops : List COp) :
+    ∀ e ∈ (c.run ops).2, e.action = steerOne (e.index == 0) e.offset e.unc e.freq e.cur e.max ∧
+      e.action ≠ .panic :=
+  run_log ops c
+
+/-- **C43.estimate_tracks_steer_step** — at every steering step of every history (any filter state `f`):
+    absorbing a frequency change `d` / an offset change `d` / a system clock step `dur` for clock `id`
+    replaces exactly that clock's frequency (resp. offset) entry `old` by the f64 sum `old + d`
+    (resp. `old + dur.as_seconds()`); with `steer_absorbs_applied`, `d` is the applied change
+    `actual − cur` resp. `−offset`.  So the controller's estimate moves by the applied amount up to the
+    roundings of that one addition (and of `actual − cur`). -/
+theorem estimate_tracks_steer_step (f f' : Filter) (id : Nat) :
+    (∀ d, f.absorbFrequency id d = .ok f' → ∃ c old, getClock f.est id = .ok c ∧
+      f.est.state.get (c.base + 1) 0 = some old ∧ f'.est.state.get (c.base + 1) 0 = some (F64.add old d)) ∧
+    (∀ d, f.absorbOffset id d = .ok f' → ∃ c old, getClock f.est id = .ok c ∧
+      f.est.state.get c.base 0 = some old ∧ f'.est.state.get c.base 0 = some (F64.add old d)) ∧
+    (∀ dur, f.absorbSystem id dur = .ok f' → ∃ c old, getClock f.est id = .ok c ∧
+      f.est.state.get c.base 0 = some old ∧
+      f'.est.state.get c.base 0 = some (F64.add old (durAsSeconds dur))) := by
+  have key : ∀ (m m' : Mat F64) (r : Nat) (d : F64), bumpCell m r d = some m' →
+      ∃ old, m.get r 0 = some old ∧ m'.get r 0 = some (F64.add old d) := by
+    intro m m' r d h
+    unfold bumpCell at h
+    cases hg : m.get r 0 with
+    | none => simp [hg] at h
+    | some old =>
+      simp only [hg, Option.bind_eq_bind, Option.bind_some] at h
+      unfold Mat.set at h
+      split at h
+      · rename_i hc
+        cases h
+        refine ⟨old, rfl, ?_⟩
+        simp only [Mat.get, hc.1, hc.2.1, and_self, if_true]
+        rw [List.getElem?_set]
+        have := hc.2.2
+        simp only [Nat.add_zero] at this
+        simp [this]
+        rfl
+      · cases h
+  refine ⟨?_, ?_, ?_⟩
+  · intro d h
+    unfold Filter.absorbFrequency at h
+    obtain ⟨est, he, h⟩ := bindE h
+    cases h
+    have he := liftE_ok he
+    unfold absorbFrequencySteer at he
+    obtain ⟨c, hc, he⟩ := bindE he
+    obtain ⟨st, hst, he⟩ := bindE he
+    cases he
+    cases hb : bumpCell f.est.state c.frequencyIndex d with
+    | none => rw [hb] at hst; cases hst
+    | some m' =>
+      rw [hb] at hst
+      cases hst
+      obtain ⟨old, h1, h2⟩ := key _ _ _ _ hb
+      exact ⟨c, old, hc, h1, h2⟩
+  · intro d h
+    unfold Filter.absorbOffset at h
+    obtain ⟨est, he, h⟩ := bindE h
+    cases h
+    have he := liftE_ok he
+    unfold absorbOffsetChange at he
+    obtain ⟨c, hc, he⟩ := bindE he
+    obtain ⟨st, hst, he⟩ := bindE he
+    cases he
+    cases hb : bumpCell f.est.state c.offsetIndex d with
+    | none => rw [hb] at hst; cases hst
+    | some m' =>
+      rw [hb] at hst
+      cases hst
+      obtain ⟨old, h1, h2⟩ := key _ _ _ _ hb
+      exact ⟨c, old, hc, h1, h2⟩
+  · intro dur h
+    unfold Filter.absorbSystem at h
+    obtain ⟨est, he, h⟩ := bindE h
+    cases h
+    have he := liftE_ok he
+    unfold absorbSystemClockOffsetChange at he
+    obtain ⟨c, hc, he⟩ := bindE he
+    obtain ⟨st, hst, he⟩ := bindE he
+    cases he
+    cases hb : bumpCell f.est.state c.offsetIndex (Num.ofDur dur) with
+    | none => rw [hb] at hst; cases hst
+    | some m' =>
+      rw [hb] at hst
+      cases hst
+      obtain ⟨old, h1, h2⟩ := key _ _ _ _ hb
+      exact ⟨c, old, hc, h1, h2⟩
+
+
+/-- **C43.controller_invariant_history** — in every controller history the estimator is well-formed
+    (C42's invariant: shapes, unique ids, index blocks partition the state vector), the steered clocks have
+    pairwise different ids, all below the id counter. -/
+theorem controller_invariant_history {now : Nat} {max w : F64} {cfg : Cfg} {c0 : Ctrl}
+    (h0 : Ctrl.new now max w cfg = .ok c0) (ops : List COp) : CtrlInv (c0.run ops).1 :=
+  inv_run ops c0 (inv_new h0)
+
+/-- **C43.estimate_tracks_steer_tick** — one `steer_clocks` loop over clocks with pairwise different ids,
+    starting from a well-formed estimator: for the clock `id` at any position,
+    (1) the iterations before it leave its estimate (offset and frequency, value and uncertainty) as it was,
+    (2) the iterations after it leave its estimate as its own iteration made it.
+    With `estimate_tracks_steer_step` (its own iteration replaces the entry `old` by `old + absorbed`) and
+    `steer_absorbs_applied` (absorbed = applied): at the end of the call the controller's estimate for every
+    clock is the progressed estimate plus the step / frequency change applied to that clock. -/
+theorem estimate_tracks_steer_tick (read : Filter) (leap : Option Leap) (rd : Int) (acc0 : SteerAcc)
+    (h0 : WF acc0.filter.est) (pre post : List (Nat × Mock)) (id : Nat) (m : Mock)
+    (hnd : ((pre ++ (id, m) :: post).map (·.1)).Nodup) :
+    (clockOffset (steerLoop read leap rd acc0 0 pre).filter.est id = clockOffset acc0.filter.est id ∧
+     clockFrequency (steerLoop read leap rd acc0 0 pre).filter.est id = clockFrequency acc0.filter.est id) ∧
+    (clockOffset (steerLoop read leap rd acc0 0 (pre ++ (id, m) :: post)).filter.est id =
+       clockOffset (steerClock read leap rd (steerLoop read leap rd acc0 0 pre) pre.length id m).filter.est id ∧
+     clockFrequency (steerLoop read leap rd acc0 0 (pre ++ (id, m) :: post)).filter.est id =
+       clockFrequency (steerClock read leap rd (steerLoop read leap rd acc0 0 pre) pre.length id m).filter.est id) := by
+  simp only [List.map_append, List.map_cons] at hnd
+  rw [List.nodup_append] at hnd
+  obtain ⟨_, hpost, hdis⟩ := hnd
+  have hpre : ∀ x ∈ pre, x.1 ≠ id := by
+    intro x hx e
+    exact hdis x.1 (List.mem_map.mpr ⟨x, hx, rfl⟩) id List.mem_cons_self e
+  have hpo : ∀ x ∈ post, x.1 ≠ id := by
+    intro x hx e
+    rw [List.nodup_cons] at hpost
+    exact hpost.1 (by rw [← e]; exact List.mem_map.mpr ⟨x, hx, rfl⟩)
+  obtain ⟨w1, o1, f1⟩ := steerLoop_frame read leap rd (id := id) pre acc0 0 h0 hpre
+  refine ⟨⟨o1, f1⟩, ?_⟩
+  rw [steerLoop_split]
+  simp only [Nat.zero_add]
+  have w2 := steerClock_wf read leap rd (steerLoop read leap rd acc0 0 pre) pre.length id m w1
+  obtain ⟨_, o2, f2⟩ := steerLoop_frame read leap rd (id := id) post _ (pre.length + 1) w2 hpo
+  exact ⟨o2, f2⟩
+
+/-- what `steer_clocks` runs the loop on: the progressed clone of the filter and the controller's clocks -/
+theorem steerAcc_shape {c : Ctrl} {rd : Int} {acc : SteerAcc} (h : c.steerAcc = .ok (rd, acc)) :
+    ∃ progressed leap, c.filter.progress c.now = .ok progressed ∧
+      acc = steerLoop c.filter leap rd ⟨[], progressed, [], none, c.now⟩ 0 c.clocks := by
+  unfold Ctrl.steerAcc at h
+  split at h
+  · cases h
+  · obtain ⟨progressed, hp, h⟩ := bindE h
+    obtain ⟨leap, _, h⟩ := bindE h
+    obtain ⟨r, _, h⟩ := bindE h
+    simp only [pure, Except.pure, Except.ok.injEq, Prod.mk.injEq] at h
+    obtain ⟨rfl, rfl⟩ := h
+    exact ⟨progressed, leap, hp, rfl⟩
+
+/-- **C43.estimate_tracks_steer_history** — the same for every `steer_clocks` call of every controller
+    history: the hypotheses of `estimate_tracks_steer_tick` hold at every reachable controller. -/
+theorem estimate_tracks_steer_history {now : Nat} {max w : F64} {cfg : Cfg} {c0 : Ctrl}
+    (h0 : Ctrl.new now max w cfg = .ok c0) (ops : List COp) {rd : Int} {acc : SteerAcc}
+    (hs : (c0.run ops).1.steerAcc = .ok (rd, acc)) (pre post : List (Nat × Mock)) (id : Nat) (m : Mock)
+    (hsplit : (c0.run ops).1.clocks = pre ++ (id, m) :: post) :
+    ∃ progressed leap, (c0.run ops).1.filter.progress (c0.run ops).1.now = .ok progressed ∧
+      let read := (c0.run ops).1.filter
+      let acc0 : SteerAcc := ⟨[], progressed, [], none, (c0.run ops).1.now⟩
+      let before := steerLoop read leap rd acc0 0 pre
+      let mine := steerClock read leap rd before pre.length id m
+      clockOffset before.filter.est id = clockOffset progressed.est id ∧
+      clockFrequency before.filter.est id = clockFrequency progressed.est id ∧
+      clockOffset acc.filter.est id = clockOffset mine.filter.est id ∧
+      clockFrequency acc.filter.est id = clockFrequency mine.filter.est id := by
+  have hinv := controller_invariant_history h0 ops
+  obtain ⟨progressed, leap, hp, hacc⟩ := steerAcc_shape hs
+  refine ⟨progressed, leap, hp, ?_⟩
+  simp only
+  have hnd := hinv.nodup
+  rw [hsplit] at hnd hacc
+  obtain ⟨⟨a, b⟩, ⟨c', d⟩⟩ := estimate_tracks_steer_tick (c0.run ops).1.filter leap rd
+    ⟨[], progressed, [], none, (c0.run ops).1.now⟩ (progress_wf hinv.est hp) pre post id m hnd
+  rw [hacc]
+  exact ⟨a, b, c', d⟩
+
+
+/-! #### non-vacuity of the whole-controller theorems (the arithmetic-dependent arms — links turning
+active / inactive, frequency steering, clamping — are witnessed by the hit counters of stream c43_ctrl) -/
+
+def demoCfg : Cfg := ⟨F64.one, F64.one, F64.one, F64.one, 1⟩
+
+/-- a controller exists, gets a second clock and an untracked link between the two: the hypotheses of
+    `internal_untracked_link_always_active` are satisfiable and its conclusion is visible -/
+example : ∃ c0, Ctrl.new 5 F64.one F64.one demoCfg = .ok c0 ∧
+    (((c0.run [.addClock ⟨F64.zero, F64.one⟩ F64.one, .link 0 1 none]).1.filter.links.map
+      fun l => (l.id.uid, l.active, l.tracked.isSome, l.ext.isSome)) = [(0, true, false, false)]) :=
+  ⟨_, rfl, rfl⟩
+
+/-- an external untracked link starts inactive (and `created_link_shape` applies) -/
+example : ∃ c0, Ctrl.new 5 F64.one F64.one demoCfg = .ok c0 ∧
+    (((c0.run [.addExt, .link 0 1 none, .link 1 0 (some F64.one)]).1.filter.links.map
+      fun l => (l.id.uid, l.active, l.tracked.isSome, l.ext.isSome)) =
+        [(0, false, false, true), (1, false, true, true)]) :=
+  ⟨_, rfl, rfl⟩
+
 end NtpVerif.C43
 
 #print axioms NtpVerif.C43.frequency_query
@@ -178,3 +517,15 @@ end NtpVerif.C43
 #print axioms NtpVerif.C43.steer_nan_passthrough
 #print axioms NtpVerif.C43.steer_absorbs_applied
 #print axioms NtpVerif.C43.estimate_tracks_steer
+#print axioms NtpVerif.C43.internal_untracked_link_always_active
+#print axioms NtpVerif.C43.created_link_shape
+#print axioms NtpVerif.C43.external_link_activation_needs_consensus
+#print axioms NtpVerif.C43.unfit_external_link_never_becomes_active
+#print axioms NtpVerif.C43.no_window_if_unfit
+#print axioms NtpVerif.C43.bookkeeping_keeps_external_data
+#print axioms NtpVerif.C43.steer_within_max_history
+#print axioms NtpVerif.C43.steer_log_sound_history
+#print axioms NtpVerif.C43.estimate_tracks_steer_step
+#print axioms NtpVerif.C43.controller_invariant_history
+#print axioms NtpVerif.C43.estimate_tracks_steer_tick
+#print axioms NtpVerif.C43.estimate_tracks_steer_history
